@@ -481,4 +481,31 @@ theorem eval_iterloop_is_iterLoop_list (f sc : Nat) (n c0 iv it body : Node) (id
         iterLoop (iterNext f ls n it) (bindLoopVars ls n (ids.map textOf)) (eval f ls body) f start)) := by
   rw [eval_loop _ _ _ h, evalLoop_is_iterLoop_list f sc n c0 iv it body ids hc h0 h0c hiv hivc hids]
 
+/-! ### statement sequences -/
+
+/-- evaluating statements in order; the value is the value of the last one -/
+def seqEval (f sc : Nat) : List Node → Val → M Val
+  | [], r => pure r
+  | c :: cs, _ => do
+    let v ← eval f sc c
+    seqEval f sc cs v
+
+theorem forIn_seq (f sc : Nat) (g : Option Node → Val → M (ForInStep Val))
+    (hg : ∀ c r, g (some c) r = (do let v ← eval f sc c; pure (ForInStep.yield v))) :
+    ∀ (cs : List Node) (r : Val), forIn (cs.map some) r g = seqEval f sc cs r
+  | [], r => rfl
+  | c :: cs, r => by
+    simp only [List.map_cons, List.forIn_cons, hg, bind_assoc, pure_bind, seqEval]
+    congr; funext v
+    exact forIn_seq f sc g hg cs v
+
+/-- **eval_statements**: a `statements` node evaluates its children in order with the same fuel and scope;
+    the first signal of a child ends the sequence (monadic bind), the value is that of the last child -/
+theorem eval_statements (f sc : Nat) (n : Node) (cs : List Node) (h : n.name = "statements")
+    (hc : n.children = cs.map some) : eval (f+1) sc n = seqEval f sc cs Val.null := by
+  rw [eval]
+  simp only [h, hc]
+  rw [forIn_seq f sc _ (fun c r => by simp) cs Val.null]
+  simp
+
 end Ecal.Ev
